@@ -1833,6 +1833,158 @@ def r10(ctx):
     ctx.floor("C09.R10", "adapters with an array-valued object form", n, 1)
 
 
+# ------------------------------------------------------------------------------------------ R11 / R12 / R13 (audit round)
+
+def _date_adapter_methods(repo: Repo):
+    """(class, decode fn, encode fn) of Adapter subclasses in the codec modules that use the datetime API."""
+    adapter = repo.cls("Adapter", SERMOD)
+    out = []
+    for k in sorted(repo.subclasses(adapter, strict=True), key=lambda c: c.qual):
+        if k.module.rel not in TZ_MODULES:
+            continue
+        dec, enc = repo.lookup_method(k, "decode"), repo.lookup_method(k, "encode")
+        if dec is None or enc is None or dec.cls == adapter or enc.cls == adapter:
+            continue
+        uses = False
+        for f in (dec, enc):
+            for c in calls(f.node, into_defs=True):
+                if isinstance(c.func, ast.Attribute) and c.func.attr in ("fromtimestamp", "utcfromtimestamp", "timestamp",
+                                                                         "fromisoformat", "timegm"):
+                    uses = True
+        if uses:
+            out.append((k, dec, enc))
+    return out
+
+
+def r11(ctx):
+    """Time stamps with a sub-second part (microsecond CreationDate): a double of seconds has ~0.1 us of slack at
+    today's dates and none beyond 2**53 us, so a codec that multiplies/divides through float seconds and truncates
+    loses a tick."""
+    repo = ctx.repo
+    ctx.rule("C09.R11", "date adapters convert the sub-second part with integer arithmetic: no int()/floor of a "
+                        "float product of timestamp(), no true division of the raw stamp before fromtimestamp()")
+    n = 0
+    for k, dec, enc in _date_adapter_methods(repo):
+        n += 1
+        bad = []
+        for c in calls(enc.node, into_defs=True):
+            if (ap(c.func) or "") in ("int", "math.floor", "math.trunc") and c.args:
+                for x in ast.walk(c.args[0]):
+                    if isinstance(x, ast.BinOp) and isinstance(x.op, (ast.Mult, ast.Div)) and any(
+                            isinstance(y, ast.Call) and isinstance(y.func, ast.Attribute) and y.func.attr == "timestamp"
+                            for side in (x.left, x.right) for y in ast.walk(side)):
+                        bad.append(c)
+                        break
+        ctx.ob("C09.R11", f"{enc.qual}: stamp rebuilt with integer arithmetic", not bad, ctx.w(enc, bad[0]) if bad else enc.where,
+               (f"`{norm(bad[0])[:90]}` truncates a float product: timestamp() * multiplier lands up to 0.125 below the "
+                f"integer for microsecond stamps, so e.g. CreationDate 1099801168165552 re-encodes as ...551" if bad else ""))
+        raw = dec.node.args.args[1].arg if len(dec.node.args.args) > 1 else None
+        badd = []
+        for c in calls(dec.node, into_defs=True):
+            if isinstance(c.func, ast.Attribute) and c.func.attr in ("fromtimestamp", "utcfromtimestamp") and c.args:
+                a0 = c.args[0]
+                if isinstance(a0, ast.Name):
+                    vals = [s_.value for s_ in stores(dec.node, into_defs=False) if s_.path == a0.id and s_.value is not None
+                            and not isinstance(s_.node, ast.Assign) or (s_.path == a0.id and isinstance(s_.node, ast.Assign)
+                                                                        and not isinstance(s_.node.targets[0], (ast.Tuple, ast.List))
+                                                                        and s_.value is not None)]
+                    a0 = vals[0] if len(vals) == 1 else a0
+                if any(isinstance(x, ast.BinOp) and isinstance(x.op, ast.Div) and any(
+                        isinstance(y, ast.Name) and y.id == raw for y in ast.walk(x)) for x in ast.walk(a0)):
+                    badd.append(c)
+        ctx.ob("C09.R11", f"{dec.qual}: raw stamp split with integer arithmetic", not badd,
+               ctx.w(dec, badd[0]) if badd else dec.where,
+               (f"`{norm(badd[0])[:90]}` turns the integer stamp into float seconds: beyond 2**53 ticks (and within rounding "
+                f"slack before) the sub-second part is not the one on the wire" if badd else ""))
+    ctx.floor("C09.R11", "date adapters", n, 1)
+
+
+def r12(ctx):
+    """An integer adapter has to take every integer of the wire type: datetime only spans years 1..9999, which is 1.4 %
+    of a U64 microsecond stamp.  Like the enum adapters, what cannot be prettified stays a number (and encode takes
+    the number back)."""
+    repo = ctx.repo
+    ctx.rule("C09.R12", "date adapters are total over the wire type: datetime construction from the raw value falls "
+                        "back to the bare number when out of range, and encode passes plain integers through")
+    from ..core import try_contexts, handler_names
+    for k, dec, enc in _date_adapter_methods(repo):
+        sites = [c for c in calls(dec.node, into_defs=True)
+                 if isinstance(c.func, ast.Attribute) and c.func.attr in ("fromtimestamp", "utcfromtimestamp")]
+        bad = []
+        for c in sites:
+            ok = False
+            for tc in try_contexts(c, dec.node):
+                if tc.section == "body":
+                    caught = set()
+                    for h in tc.node.handlers:
+                        caught |= set(handler_names(h))
+                    if caught & {"Exception", "BaseException", "*"} or {"ValueError", "OverflowError"} <= caught:
+                        ok = True
+            if not ok:
+                bad.append(c)
+        ctx.ob("C09.R12", f"{dec.qual}: a stamp outside datetime's range stays a number", bool(sites) and not bad,
+               ctx.w(dec, bad[0]) if bad else dec.where,
+               (f"`{norm(bad[0])[:80]}` raises ValueError / OverflowError for stamps past year 9999 (98.6 % of a U64 "
+                f"microsecond field): the variable cannot be deserialized at all" if bad else "no datetime construction found"))
+        raw = enc.node.args.args[1].arg if len(enc.node.args.args) > 1 else None
+        passes = False
+        for r in [n_ for n_ in walk(enc.node) if isinstance(n_, ast.Return) and isinstance(n_.value, ast.Name) and n_.value.id == raw]:
+            for e, pol in facts(r, enc.node):
+                if pol and isinstance(e, ast.Call) and ap(e.func) == "isinstance" and len(e.args) == 2 \
+                        and isinstance(e.args[0], ast.Name) and e.args[0].id == raw \
+                        and "int" in {ap(x) for x in ast.walk(e.args[1])}:
+                    passes = True
+        ctx.ob("C09.R12", f"{enc.qual}: a plain integer is encoded as itself", passes, enc.where,
+               "the decoder's fall-back for unrepresentable stamps is the bare number; encode must take it back "
+               "(isinstance(val, int) -> return val)")
+
+
+def r13(ctx):
+    """empty_is_none: the reader maps an empty body to None.  A writer that gives None its own byte form (nothing at
+    all, not even the terminator) has to give that same form to every value whose body is empty, or the payload it
+    produces for an empty value (a lone terminator) decodes to None and re-encodes differently."""
+    repo = ctx.repo
+    ctx.rule("C09.R13", "a typed-bytes writer that special-cases None under empty_is_none treats a value with an empty "
+                        "body the same way (the reader's notion of empty)")
+    base = repo.cls("TypedBytesBase", SERMOD)
+    n = 0
+    for k in sorted(repo.subclasses(base), key=lambda c: c.qual):
+        f = k.methods.get("serialize")
+        if f is None or len(f.node.args.args) < 2:
+            continue
+        val = f.node.args.args[1].arg
+        rets = [r for r in walk(f.node) if isinstance(r, ast.Return) and r.value is None]
+        none_rets = [r for r in rets if any(is_none_test_of(e, val) and pol for e, pol in facts(r, f.node))]
+        if not none_rets:
+            continue
+        n += 1
+        # a bare return under an emptiness test of something that is not the value itself (the encoded body)
+        body_rets = []
+        for r in rets:
+            for e, pol in facts(r, f.node):
+                tgt = None
+                if not pol and ap(e) is not None:
+                    tgt = ap(e)                                   # `if not buf`
+                elif isinstance(e, ast.Compare) and len(e.ops) == 1 and isinstance(e.left, ast.Call) \
+                        and ap(e.left.func) == "len" and e.left.args:
+                    tgt = ap(e.left.args[0])                      # `len(buf) == 0`
+                if tgt and tgt.split(".")[0] != val and not tgt.startswith("self."):
+                    body_rets.append(r)
+        ctx.ob("C09.R13", f"{f.qual}: a value with an empty body is written like None", bool(body_rets), f.where,
+               "serialize returns without writing only for `None`; a value whose encoded body is empty still gets a "
+               "terminator, which the reader turns into None and the writer then re-encodes as nothing: the payload "
+               "produced for an empty collection does not survive")
+    ctx.stats["C09.R13.writers special-casing None"] = n
+    if n == 0:
+        ctx.ob("C09.R13", "no typed-bytes writer gives None a byte form of its own", True, SERMOD)
+
+
+def is_none_test_of(e: ast.AST, name: str) -> bool:
+    return isinstance(e, ast.Compare) and len(e.ops) == 1 and isinstance(e.ops[0], ast.Is) \
+        and isinstance(e.left, ast.Name) and e.left.id == name and isinstance(e.comparators[0], ast.Constant) \
+        and e.comparators[0].value is None
+
+
 # ------------------------------------------------------------------------------------------ driver
 
 def run(ctx):
@@ -1850,6 +2002,9 @@ def run(ctx):
     r8(ctx)
     r9(ctx)
     r10(ctx)
+    r11(ctx)
+    r12(ctx)
+    r13(ctx)
     ctx.assume("byte-for-byte fixed points of the ~200 serializers on generated payloads and the 'printed form "
                "evaluates back' clause are not decided statically")
     ctx.assume("Python semantics encoded: enum.IntFlag(negative) / IntFlag.__or__ are not value preserving on "
